@@ -683,7 +683,7 @@ def replay_width_zero(fd, vals, info):
     for k in sorted(vals):
         pass
     # harness draws: allow_overflow raw pad min_wrap_width   (any values: try the all-true corner)
-    return {"harness": "m_width_zero", "values": [[1], [1], [1], le_bytes(0, 8)]}
+    return {"harness": "r12_width_zero", "values": [[1], [1], [1], le_bytes(0, 8)]}
 
 
 # ----------------------------------------------------------------------------
@@ -722,6 +722,7 @@ def spec_ol_numbering(ctx, make_exe):
     exe = make_exe(loop_bound=4)
     start = exe.fresh("i64", "start")
     items = exe.fresh("usize", "num_items")
+    exe.hints = [z3.ULE(items.e, u64(20)), z3.UGE(items.e, u64(1)), start.e >= -1000, start.e <= 1000]
     values = {}
     for f in (est, ren):
         st = State()
@@ -1036,6 +1037,180 @@ def spec_prefix_width_quote(ctx, make_exe):
 def replay_prefix_width(fd, vals, info):
     return {"harness": "m_prefix_width", "values": [[0]]}
 
+# ----------------------------------------------------------------------------
+# SPECS: WrappedBlock (word wrapping) over the TaggedLine / string contracts (wrapmodel.py)
+# ----------------------------------------------------------------------------
+
+WRAP_INLINE = [r"WrappedBlock::<\w+>::progress_width$", r"WrappedBlock::<\w+>::flush_line$", r"WrappedBlock::<\w+>::force_flush_line$", r"WrappedBlock::<\w+>::flush_word$",
+               r"WhiteSpace::do_wrap$", r"WhiteSpace::preserve_whitespace$", r"<WhiteSpace as PartialEq>::eq$"]
+
+
+def _wrap_setup(ctx, make_exe, mode, spacetag_some, loop_bound, hard_wrap="contract", inline_extra=()):
+    import wrapmodel
+    exe = make_exe(inline=WRAP_INLINE + list(inline_extra), loop_bound=loop_bound, timeout_ms=20000)
+    m = wrapmodel.WrapModel(ctx, exe)
+    m.install(hard_wrap=hard_wrap)
+    st = State()
+    st.pc += m.invariant(mode == "Normal", spacetag_some)
+    modev = exe.fresh("u8", "s.mode")  # recorded in every model so that the replay knows the mode
+    st.pc.append(modev.e == {"Normal": 0, "Pre": 1, "PreWrap": 2}[mode])
+    exe.cell_n += 1
+    cid = "cell%d" % exe.cell_n
+    exe.global_cells[cid] = m.block(spacetag_some)
+    return exe, m, st, VRef("cell", cid)
+
+
+def _wrap_post_state(exe, m, s2, ref):
+    blk = exe.deref(s2, ref)
+    g = lambda n: blk.fields[m.names.index(n)]
+    return {"line_len": g("line").fields[1].e, "line_nonempty": g("line").fields[2].e, "count": g("text").fields[0].e,
+            "maxlen": g("text").fields[1].e, "wslen": g("wslen").e, "wordlen": g("wordlen").e,
+            "word_nonempty": g("word").fields[2].e, "spacetag": g("spacetag"), "pre_wrapped": g("pre_wrapped").e}
+
+
+def spec_wrap_flush_word(ctx, make_exe):
+    import wrapmodel
+    f = the(ctx.find(r"::flush_word$", debug=["self", "ws_mode"]), "WrappedBlock::flush_word")
+    total = 0
+    for mode in ("Normal", "Pre", "PreWrap"):
+        for tag_some in (True, False):
+            exe, m, st, ref = _wrap_setup(ctx, make_exe, mode, tag_some, loop_bound=12)
+            # the pending-whitespace copy loop runs wslen / width times: keep it inside the loop bound
+            st.pc += [z3.ULE(m.wslen.e, u64(8))]
+            try:
+                exe.hints = [z3.ULE(m.width.e, u64(12)), z3.ULE(m.wordlen.e, u64(12)), z3.ULE(m.wslen.e, u64(12))]
+                outs = exe.run(f.name, {1: ref, 2: wrapmodel.ws_mode(mode)}, st)
+            finally:
+                m.uninstall()
+            total += len(outs)
+            W, L, WS, WL = m.width.e, m.line_len.e, m.wslen.e, m.wordlen.e
+            fits = z3.ULE(WS + WL, W - L)
+            for (s2, ret) in outs:
+                if not (isinstance(ret, VAgg) and ret.variant in ("Ok", "Err")):
+                    raise Inconclusive("flush_word did not return a Result")
+                p = _wrap_post_state(exe, m, s2, ref)
+                tag = "flush_word(%s)" % mode
+                if ret.variant == "Err":
+                    post(exe, s2, z3.Not(m.allow_overflow.e), f.name, tag + ": TooNarrow only when overflow is not allowed")
+                    continue
+                post(exe, s2, p["wordlen"] == 0, f.name, tag + ": the word buffer is empty afterwards")
+                post(exe, s2, z3.Implies(z3.Not(m.word_nonempty.e), z3.And(p["line_len"] == L, p["count"] == m.text_count.e)),
+                     f.name, tag + ": nothing happens without a pending word")
+                post(exe, s2, z3.Implies(z3.And(m.word_nonempty.e, fits),
+                                         z3.And(p["count"] == m.text_count.e, p["line_len"] == L + WS + WL, p["wslen"] == 0)),
+                     f.name, tag + ": a word that fits stays on the current line after its pending space (greedy fill)")
+                if mode != "Pre":
+                    post(exe, s2, z3.Implies(z3.And(m.word_nonempty.e, z3.Not(fits)),
+                                             z3.And(p["wslen"] == 0,
+                                                    z3.UGE(p["count"], m.text_count.e + z3.If(m.line_nonempty.e, u64(1), u64(0))))),
+                         f.name, tag + ": a word that does not fit closes the current line and drops the space")
+                post(exe, s2, z3.Implies(z3.Not(m.allow_overflow.e), z3.And(z3.ULE(p["line_len"], W), z3.ULE(p["maxlen"], W))),
+                     f.name, tag + ": no line is wider than the block")
+    return {"function": f.name, "paths": total}
+
+
+def _run_add_text(ctx, make_exe, mode, nchars, alphabet, tag_some, extra_pre=None, loop_bound=24):
+    import wrapmodel
+    f = the(ctx.find(r"::add_text$", debug=["self", "text", "ws_mode", "main_tag", "wrap_tag"]), "WrappedBlock::add_text")
+    exe, m, st, ref = _wrap_setup(ctx, make_exe, mode, tag_some, loop_bound=loop_bound)
+    chars = []
+    for i in range(nchars):
+        c = exe.fresh("u32", "ch%d" % i)
+        st.pc.append(wrapmodel.in_alphabet(c.e, alphabet))
+        chars.append(c)
+    st.pc += [z3.ULE(m.wslen.e, u64(8))]
+    if extra_pre:
+        st.pc += extra_pre(m)
+    exe.hints = [z3.ULE(m.width.e, u64(12)), z3.ULE(m.wordlen.e, u64(12)), z3.ULE(m.line_len.e, u64(12)), z3.ULE(m.text_count.e, u64(3))]
+    try:
+        outs = exe.run(f.name, {1: ref, 2: VRef("val", VVec(chars)), 3: wrapmodel.ws_mode(mode),
+                                4: VRef("val", VOpaque("T", "main_tag")), 5: VRef("val", VOpaque("T", "wrap_tag"))}, st)
+    finally:
+        m.uninstall()
+    return f, exe, m, ref, chars, outs
+
+
+def spec_wrap_add_text_normal(ctx, make_exe):
+    """Normal flow: whitespace collapses to at most one pending column, never at the start of a line;
+    the width bound and the representation invariant are preserved by every two-character step."""
+    import wrapmodel
+    total = 0
+    for tag_some in (True, False):
+        f, exe, m, ref, chars, outs = _run_add_text(ctx, make_exe, "Normal", 2, ["a", " ", "\n", "\t", "wide", "comb", "nbsp"], tag_some)
+        total += len(outs)
+        for (s2, ret) in outs:
+            if not (isinstance(ret, VAgg) and ret.variant in ("Ok", "Err")):
+                raise Inconclusive("add_text did not return a Result")
+            if ret.variant == "Err":
+                post(exe, s2, z3.Not(m.allow_overflow.e), f.name, "add_text(Normal): TooNarrow only when overflow is not allowed")
+                continue
+            p = _wrap_post_state(exe, m, s2, ref)
+            post(exe, s2, z3.ULE(p["wslen"], u64(1)), f.name, "add_text(Normal): collapsed whitespace is at most one column")
+            post(exe, s2, z3.Implies(p["wslen"] != 0, p["line_len"] != 0), f.name,
+                 "add_text(Normal): no pending space at the start of a line")
+            post(exe, s2, z3.Implies(p["wslen"] != 0, z3.BoolVal(isinstance(p["spacetag"], VAgg) and p["spacetag"].variant == "Some")),
+                 f.name, "add_text(Normal): pending space carries a tag")
+            post(exe, s2, z3.Implies(z3.Not(m.allow_overflow.e), z3.And(z3.ULE(p["line_len"], m.width.e), z3.ULE(p["maxlen"], m.width.e))),
+                 f.name, "add_text(Normal): no line is wider than the block")
+            post(exe, s2, z3.Implies(p["wordlen"] != 0, p["word_nonempty"]), f.name, "add_text(Normal): a word with width has content")
+            # whitespace only input leaves the word and the lines untouched
+            both_ws = z3.And(wrapmodel.char_is_ws(chars[0].e), wrapmodel.char_is_ws(chars[1].e))
+            post(exe, s2, z3.Implies(z3.And(both_ws, m.wordlen.e == 0, z3.Not(m.word_nonempty.e)),
+                                     z3.And(p["count"] == m.text_count.e, p["line_len"] == m.line_len.e, p["wordlen"] == 0)),
+                 f.name, "add_text(Normal): whitespace alone emits nothing")
+            # ... and any run of collapsible whitespace has exactly the effect of a single space
+            post(exe, s2, z3.Implies(z3.And(both_ws, m.wordlen.e == 0, z3.Not(m.word_nonempty.e)),
+                                     p["wslen"] == z3.If(m.line_len.e != 0, u64(1), u64(0))),
+                 f.name, "add_text(Normal): a whitespace run of any composition leaves one pending space (none at the start of a line)")
+            one_ws = z3.And(wrapmodel.char_is_ws(chars[0].e), z3.Not(wrapmodel.char_is_ws(chars[1].e)),
+                            m.wordlen.e == 0, z3.Not(m.word_nonempty.e), z3.Not(wrapmodel.char_is_control(chars[1].e)))
+            post(exe, s2, z3.Implies(one_ws, z3.And(p["wordlen"] == wrapmodel.char_width(chars[1].e), p["line_len"] == m.line_len.e,
+                                                    p["count"] == m.text_count.e)),
+                 f.name, "add_text(Normal): a character after whitespace starts the word buffer; nothing is emitted yet")
+    return {"function": f.name, "paths": total}
+
+
+def spec_wrap_add_text_pre(ctx, make_exe):
+    """Preformatted flow: terminates for every block width (including 0), newline forces a line,
+    a tab advances to the next multiple of 8 when it fits."""
+    import wrapmodel
+    total = 0
+    for mode in ("Pre", "PreWrap"):
+        for tag_some in (True, False):
+            f, exe, m, ref, chars, outs = _run_add_text(ctx, make_exe, mode, 1, ["a", " ", "\n", "\t", "wide"], tag_some, loop_bound=28)
+            total += len(outs)
+            c = chars[0].e
+            for (s2, ret) in outs:
+                if not (isinstance(ret, VAgg) and ret.variant in ("Ok", "Err")):
+                    raise Inconclusive("add_text did not return a Result")
+                if ret.variant == "Err":
+                    post(exe, s2, z3.Not(m.allow_overflow.e), f.name, "add_text(%s): TooNarrow only when overflow is not allowed" % mode)
+                    continue
+                p = _wrap_post_state(exe, m, s2, ref)
+                post(exe, s2, z3.Implies(z3.Not(m.allow_overflow.e), z3.And(z3.ULE(p["line_len"], m.width.e), z3.ULE(p["maxlen"], m.width.e))),
+                     f.name, "add_text(%s): no line is wider than the block" % mode)
+                nl = z3.And(c == 0x0a, m.wordlen.e == 0, z3.Not(m.word_nonempty.e))
+                post(exe, s2, z3.Implies(nl, z3.And(p["count"] == m.text_count.e + 1, p["line_len"] == 0, p["wslen"] == 0, z3.Not(p["pre_wrapped"]))),
+                     f.name, "add_text(%s): a newline ends the line and resets pending space" % mode)
+                tab_fits = z3.And(c == 0x09, m.wordlen.e == 0, z3.Not(m.word_nonempty.e), m.wslen.e == 0,
+                                  z3.ULE(m.line_len.e + 8, m.width.e))
+                nxt = (z3.UDiv(m.line_len.e, u64(8)) + 1) * 8
+                post(exe, s2, z3.Implies(tab_fits, z3.And(p["line_len"] == nxt, p["count"] == m.text_count.e)),
+                     f.name, "add_text(%s): a tab advances to the next 8-column stop" % mode)
+    return {"function": f.name, "paths": total}
+
+
+def replay_wrap(fd, vals, info):
+    g = lambda k: int(vals.get("s." + k, 0))
+    mode = int(vals.get("s.mode", 0))
+    chars = [int(vals.get("ch%d" % i, 0)) for i in range(3) if ("ch%d" % i) in vals]
+    v = [[mode], le_bytes(g("width"), 8), le_bytes(g("line_len"), 8), le_bytes(g("wslen"), 8), le_bytes(g("wordlen"), 8),
+         [1 if vals.get("s.word_nonempty") else 0], [1 if vals.get("s.allow_overflow") else 0],
+         [1 if vals.get("s.pre_wrapped") else 0], [len(chars)]]
+    for c in chars:
+        v.append(le_bytes(c, 4))
+    return {"harness": "m_wrap_step", "values": v}
+
 
 ALL = [
     Spec("table_col_width", ["C06", "C02", "C01"], spec_table_col_width,
@@ -1044,7 +1219,7 @@ ALL = [
          assumptions=["preconditions are those the caller establishes: side-by-side layout only when width >= 1; tot_size is the sum of the column sizes",
                       "std::cmp::{min,max} by contract"],
          replay=replay_table_col_width),
-    Spec("nth_child_arith", ["C20", "C01"], spec_nth_child_arith,
+    Spec("nth_child_arith", ["C20"], spec_nth_child_arith,
          functions=["Selector::do_matches (NthChild arm, blocks after the sibling-counting loop)"],
          bounds="a, b any i32; 0 <= idx < 2^30; result of matching the remaining components an arbitrary boolean",
          assumptions=["the sibling loop (DOM traversal) is not encoded: idx is an arbitrary count",
@@ -1064,18 +1239,18 @@ ALL = [
          bounds="start any i64, num_items <= 2^32",
          assumptions=["only the integer slice that computes the last item number is executed; decorator calls are outside"],
          replay=replay_ol),
-    Spec("insert_child", ["C14", "C03"], spec_insert_child,
+    Spec("insert_child", ["C14", "C03"], spec_insert_child, replay=lambda fd, vals, info: {"harness": "m_insert_child", "values": [[0]]},
          functions=["insert_child", "RenderNode::new (inlined)"],
          bounds="18 node kinds x {Start, End}; containers hold two opaque children; table kinds hold one row / cell",
          assumptions=["children are opaque nodes (identity tracked by name)", "Vec::insert / push by contract"]),
-    Spec("style_unwind", ["C09"], spec_style_unwind,
+    Spec("style_unwind", ["C09"], spec_style_unwind, replay=lambda fd, vals, info: {"harness": "m_cell_unwind", "values": [[0]]},
          functions=["PushedStyleInfo::apply", "PushedStyleInfo::unwind"],
          bounds="every combination of colour / background / white-space / preformat (style opaque, flags symbolic)",
          assumptions=["renderer push_/pop_ calls are observed (call order and presence), not executed"]),
-    Spec("cell_unwind_order", ["C09"], spec_cell_unwind_order,
+    Spec("cell_unwind_order", ["C09"], spec_cell_unwind_order, replay=lambda fd, vals, info: {"harness": "m_cell_unwind", "values": [[0]]},
          functions=["render_table_cell::{closure#0}"], bounds="all paths of the closure",
          assumptions=["calls are observed, not executed"]),
-    Spec("routes_width", ["C10"], spec_routes_width,
+    Spec("routes_width", ["C10"], spec_routes_width, replay=lambda fd, vals, info: {"harness": "m_routes_width", "values": [[0]]},
          functions=["Config::render_to_string", "Config::render_to_lines", "Config::string_from_read", "Config::lines_from_read"],
          bounds="any width; success path of every `?`",
          assumptions=["callees are observed (arguments captured), not executed"]),
@@ -1085,7 +1260,22 @@ ALL = [
          assumptions=["calc_size_estimate's guarantee: prefix_size = display width of the prefix, min_width >= prefix_size",
                       "String::len and UnicodeWidthStr::width return unrelated integers (a custom decorator may return any string)"],
          replay=replay_prefix_width),
-    Spec("table_alloc_2col", ["C06", "C02", "C05", "C01"], spec_table_alloc_2,
+    Spec("wrap_flush_word", ["C04", "C02", "C01"], spec_wrap_flush_word,
+         functions=["WrappedBlock::flush_word", "WrappedBlock::flush_line", "WrappedBlock::force_flush_line", "WhiteSpace::do_wrap"],
+         bounds="one call from an arbitrary valid block state (width, line length, pending space, word width <= 2^20), all three white-space modes",
+         assumptions=["TaggedLine operations by contract (decided on the real code by the Kani harnesses t4_*)",
+                      "flush_word_hard_wrap by contract: leaves a line that fits (or any line when overflow is allowed), may emit lines, empties the word",
+                      "representation invariant of WrappedBlock assumed for the start state (line.len <= width, pending space has a tag, ...)"],
+         replay=replay_wrap),
+    Spec("wrap_add_text_normal", ["C04", "C13", "C02"], spec_wrap_add_text_normal,
+         functions=["WrappedBlock::add_text", "WrappedBlock::flush_word", "WrappedBlock::flush_line", "WrappedBlock::force_flush_line"],
+         bounds="any valid block state, then two characters from {a, space, newline, tab, wide CJK, combining mark, NBSP}; normal white-space mode",
+         assumptions=["as wrap_flush_word"], replay=replay_wrap),
+    Spec("wrap_add_text_pre", ["C12", "C01", "C02"], spec_wrap_add_text_pre,
+         functions=["WrappedBlock::add_text (preserve-whitespace branch, tab-stop loop)", "WrappedBlock::flush_word", "WrappedBlock::flush_line"],
+         bounds="any valid block state with width <= 2^20 (including 0), then one character from {a, space, newline, tab, wide CJK}; pre and pre-wrap modes; loop bound 28",
+         assumptions=["as wrap_flush_word"], replay=replay_wrap),
+    Spec("table_alloc_2col", ["C06", "C02", "C01", "C03"], spec_table_alloc_2,
          functions=["render_table_tree (whole function incl. estimate loop, allocation closures, shrink loop)",
                     "RenderTable::rows", "RenderTableRow::cells", "RenderTableCell::get_size_estimate", "SizeEstimate::max",
                     "render_table_tree::{closure#0..5}", "<SubRenderer as Renderer>::width"],
